@@ -1,0 +1,102 @@
+// ------------------------------------------------------------------------
+// Gufo SNMP: verification hooks (feature = "verif" only)
+// ------------------------------------------------------------------------
+// Additive seams for the external verification harness in /verif.
+// Nothing here is compiled unless the `verif` cargo feature is enabled.
+// ------------------------------------------------------------------------
+
+pub use crate::privacy::{PrivKey, SnmpPriv};
+use crate::snmp::getresponse::SnmpGetResponse;
+use crate::snmp::value::SnmpValue;
+use pyo3::prelude::*;
+use std::collections::VecDeque;
+use std::sync::Mutex;
+
+/// Plain mirror of SnmpValue with public payloads
+#[derive(Debug, Clone, PartialEq)]
+pub enum VerifValue {
+    Bool(bool),
+    Int(i64),
+    Null,
+    OctetString(Vec<u8>),
+    Oid(Vec<u8>),
+    ObjectDescriptor(Vec<u8>),
+    Real(f64),
+    IpAddress(String),
+    Counter32(u32),
+    Gauge32(u32),
+    TimeTicks(u32),
+    Opaque(Vec<u8>),
+    Counter64(u64),
+    UInteger32(u32),
+    NoSuchObject,
+    NoSuchInstance,
+    EndOfMibView,
+}
+
+/// Expose decoded value
+pub fn value_repr(v: SnmpValue) -> VerifValue {
+    match v {
+        SnmpValue::Bool(x) => VerifValue::Bool(x.into()),
+        SnmpValue::Int(x) => VerifValue::Int(x.into()),
+        SnmpValue::Null => VerifValue::Null,
+        SnmpValue::OctetString(x) => VerifValue::OctetString(x.0.to_vec()),
+        SnmpValue::Oid(x) => VerifValue::Oid(x.0.to_vec()),
+        SnmpValue::ObjectDescriptor(x) => VerifValue::ObjectDescriptor(x.0.to_vec()),
+        SnmpValue::Real(x) => VerifValue::Real(x.into()),
+        SnmpValue::IpAddress(x) => VerifValue::IpAddress((&x).into()),
+        SnmpValue::Counter32(x) => VerifValue::Counter32(x.0),
+        SnmpValue::Gauge32(x) => VerifValue::Gauge32(x.0),
+        SnmpValue::TimeTicks(x) => VerifValue::TimeTicks(x.0),
+        SnmpValue::Opaque(x) => VerifValue::Opaque(x.0.to_vec()),
+        SnmpValue::Counter64(x) => VerifValue::Counter64(x.0),
+        SnmpValue::UInteger32(x) => VerifValue::UInteger32(x.0),
+        SnmpValue::NoSuchObject => VerifValue::NoSuchObject,
+        SnmpValue::NoSuchInstance => VerifValue::NoSuchInstance,
+        SnmpValue::EndOfMibView => VerifValue::EndOfMibView,
+    }
+}
+
+/// Plain mirror of SnmpGetResponse
+#[derive(Debug, Clone, PartialEq)]
+pub struct VerifResponse {
+    pub request_id: i64,
+    pub error_status: i64,
+    pub error_index: i64,
+    pub vars: Vec<(Vec<u8>, VerifValue)>,
+}
+
+/// Expose decoded response
+pub fn response_repr(r: SnmpGetResponse) -> VerifResponse {
+    VerifResponse {
+        request_id: r.request_id,
+        error_status: r.error_status,
+        error_index: r.error_index,
+        vars: r
+            .vars
+            .into_iter()
+            .map(|v| (v.oid.0.to_vec(), value_repr(v.value)))
+            .collect(),
+    }
+}
+
+static RNG_FORCED: Mutex<VecDeque<u64>> = Mutex::new(VecDeque::new());
+
+/// Queue values to be returned by the next random draws
+pub fn rng_force(values: &[u64]) {
+    let mut q = RNG_FORCED.lock().unwrap_or_else(|e| e.into_inner());
+    q.clear();
+    q.extend(values.iter().copied());
+}
+
+/// Pass-through unless armed by rng_force
+pub fn rng_override(x: u64) -> u64 {
+    let mut q = RNG_FORCED.lock().unwrap_or_else(|e| e.into_inner());
+    q.pop_front().unwrap_or(x)
+}
+
+#[pyfunction]
+pub fn _verif_rng_force(values: Vec<u64>) -> PyResult<()> {
+    rng_force(&values);
+    Ok(())
+}
